@@ -3,6 +3,7 @@ import LasModel.Driver.Ge
 import LasModel.Driver.Sf
 import LasModel.Driver.VlrD
 import LasModel.Driver.HdrD
+import LasModel.Driver.SpecD
 namespace LasModel.Driver
 
 def dispatch (line : String) : String :=
@@ -11,6 +12,7 @@ def dispatch (line : String) : String :=
   | "sf" :: rest => (Sf.handle rest).getD "bad-op"
   | "vlr" :: rest => (VlrD.handle rest).getD "bad-op"
   | "hdr" :: rest => (HdrD.handle rest).getD "bad-op"
+  | "spec" :: rest => (SpecD.handle rest).getD "bad-op"
   | _ => "bad-op"
 
 partial def loop (h : IO.FS.Stream) (out : IO.FS.Stream) : IO Unit := do
